@@ -1,4 +1,5 @@
 import Shuttle.Lemmas.Inject
+import Shuttle.Lemmas.InjectComplete
 /-!
 # C06 — spec injection is behaviour preserving and complete
 -/
@@ -69,5 +70,27 @@ example :
      | .ok (.int 7, []) => true | _ => false) = true ∧
     (match runKernel 50 ⟨fns, noLook⟩ "main" [.int 5] with | .error _ => true | _ => false) = true := by
   decide
+
+/-- **Completeness over the whole program**: after the pass, every spec lookup that is still present anywhere in the
+compiled program — in any function reachable or not, in nested branches, loop bodies, parallel blocks, closure
+bodies, call arguments and callees — is a lookup of a name the spec does not define. -/
+theorem C06_complete_program (look : LookKind → String → Option Val) (fns : List Fn) :
+    ∀ p ∈ looksProg (injProg (cfgOf look) fns), look p.1 p.2 = none :=
+  looksProg_inj (cfgOf look) C06_kinds_complete fns
+
+/-- **The pass is idempotent**: compiling an already compiled program changes nothing (whatever the rule handles). -/
+theorem C06_idempotent (look : LookKind → String → Option Val) (fns : List Fn) :
+    injProg (cfgOf look) (injProg (cfgOf look) fns) = injProg (cfgOf look) fns :=
+  injProg_idem (cfgOf look) fns
+
+/-- non-vacuity of completeness: a defined and an undefined lookup nested in a loop inside a branch -/
+example :
+    let look : LookKind → String → Option Val := fun k n => if k = .intC ∧ n = "n2" then some (.int 2) else none
+    let fns : List Fn := [
+      { name := "main", params := ["x"],
+        body := [.ifS (.var "x") [.forS "i" (.lit (.int 0)) (.look .intC "n2") (.lit (.int 1))
+                   [.exprS (.callV (.lam "main") [.look .intC "n2", .look .floatC "gap"])]] []] }]
+    looksProg fns = [(.intC, "n2"), (.intC, "n2"), (.floatC, "gap")] ∧
+    looksProg (injProg (cfgOf look) fns) = [(.floatC, "gap")] := by decide
 
 end Shuttle.Props.C06
